@@ -25,16 +25,22 @@ const absorbDepth = 3
 
 type absorbIndex struct {
 	sites map[*ssa.Function][]ssa.CallInstruction // absorbable helper (generic origin) → its static call/defer sites
+	// adopted: function → the unexported methods whose only use in the program is one method value (`x.m` handed over as a
+	// callback) created in that function: a function literal that was given a name and a receiver struct for its captured
+	// variables. They are members of the function's closure family (WithAnon).
+	adopted map[*ssa.Function][]*ssa.Function
+	binder  map[*ssa.Function]*ssa.Function // adopted method → the function that creates its method value
 }
 
-var absorb = &absorbIndex{sites: map[*ssa.Function][]ssa.CallInstruction{}}
+var absorb = &absorbIndex{sites: map[*ssa.Function][]ssa.CallInstruction{}, adopted: map[*ssa.Function][]*ssa.Function{}, binder: map[*ssa.Function]*ssa.Function{}}
 
 // AbsorptionEnabled switches the whole mechanism (off during the anchor-recording dry run).
 var AbsorptionEnabled = true
 
 // BuildAbsorption computes the set of absorbable helpers. isAnchor tells whether a role name is looked up by some rule.
 func (p *Prog) BuildAbsorption(isAnchor func(name string) bool) {
-	absorb = &absorbIndex{sites: map[*ssa.Function][]ssa.CallInstruction{}}
+	absorb = &absorbIndex{sites: map[*ssa.Function][]ssa.CallInstruction{}, adopted: map[*ssa.Function][]*ssa.Function{}, binder: map[*ssa.Function]*ssa.Function{}}
+	boundIn := map[*ssa.Function][]*ssa.Function{} // method → the functions that create a method value of it
 	type use struct {
 		calls []ssa.CallInstruction
 		other bool
@@ -62,6 +68,13 @@ func (p *Prog) BuildAbsorption(isAnchor func(name string) bool) {
 						}
 					}
 				}
+				if mk, isMk := in.(*ssa.MakeClosure); isMk {
+					if w, isF := mk.Fn.(*ssa.Function); isF {
+						if target, shift := MethodBehind(w); shift == 1 {
+							boundIn[bodyOf(target)] = append(boundIn[bodyOf(target)], fn)
+						}
+					}
+				}
 				for _, op := range in.Operands(nil) {
 					if *op == nil || *op == calleeVal {
 						continue
@@ -72,6 +85,24 @@ func (p *Prog) BuildAbsorption(isAnchor func(name string) bool) {
 				}
 			}
 		}
+	}
+	for m, fns := range boundIn {
+		if len(fns) != 1 || m == nil || len(m.Blocks) == 0 || m.Pkg == nil || m.Pkg != fns[0].Pkg {
+			continue
+		}
+		if u := uses[m]; u != nil && (u.other || len(u.calls) > 0) {
+			continue
+		}
+		name := m.Name()
+		if name == "" || unicode.IsUpper([]rune(name)[0]) || p.IsTestPos(m.Pos()) || isAnchor(FnName(m)) {
+			continue
+		}
+		root := fns[0]
+		for root.Parent() != nil {
+			root = root.Parent()
+		}
+		absorb.adopted[root] = append(absorb.adopted[root], m)
+		absorb.binder[m] = fns[0]
 	}
 	// functions referenced from test files keep their status (tests are not part of the analysed program)
 	for g, u := range uses {
@@ -266,4 +297,20 @@ func RootsOf(g *ssa.Function) []*ssa.Function {
 	}
 	up(g, 0)
 	return out
+}
+
+// AdoptedBy lists the methods that are closures of fn in all but syntax (see absorbIndex.adopted).
+func AdoptedBy(fn *ssa.Function) []*ssa.Function {
+	if !AbsorptionEnabled || fn == nil {
+		return nil
+	}
+	return absorb.adopted[fn]
+}
+
+// BinderOf: the function that creates the (only) method value of an adopted method; nil for any other function.
+func BinderOf(m *ssa.Function) *ssa.Function {
+	if !AbsorptionEnabled || m == nil {
+		return nil
+	}
+	return absorb.binder[bodyOf(m)]
 }
